@@ -5,6 +5,7 @@ import BppModel.Dag
 import BppModel.TreeObs
 import BppModel.TreeCopy
 import BppModel.TreeObsCopy
+import BppModel.DagObs
 import BppModel.Drive.C14
 /-
 Driver for C15: TreeGraphImpl on GlobalGraph (ops `t.*`), DAGraphImpl on GlobalGraph (ops `d.*`),
@@ -62,6 +63,9 @@ structure St where
   /-- the observer the `o.*` operations go through -/
   osel : Nat := 0
   isDag : Bool := false
+  /-- the DAG observer mode -/
+  dw : DW := DW.init
+  prevDW : Option DW := none
 
 def showT (t : T) : String := showGraph t.g ++ " V " ++ showBool t.valid
 def showD (d : D) : String := showGraph d.g ++ " V " ++ showBool d.valid ++ " R " ++ showBool d.rooted
@@ -806,10 +810,162 @@ def stepW (st : St) (op : List String) (impl : Option (List String)) : St × Str
     finishW st res tw (judgeW impl false none2)
   | _ => (st, "bad-op", "-")
 
+/-! ### DAG observer mode -/
+
+def showDW (dw : DW) : String := showWorld dw.w ++ " V " ++ showBool dw.valid ++ " R " ++ showBool dw.rooted
+
+def parseDWI (tk : List String) : Option (DW × List (Option IObs)) :=
+  let (wt, rest) := takeUntil ["V"] tk
+  match parseWorldI wt, rest with
+  | some (g, ios), ["V", v, "R", r] =>
+    some ({ w := { g := g, obs := ios.map (fun o => o.map IObs.labels) }, valid := v == "1", rooted := r == "1" }, ios)
+  | _, _ => none
+
+def judgeDW (impl : Option (List String)) (isValidQuery : Bool) (extra : List String → DW → Option String) : String × Option DW :=
+  match impl with
+  | none => ("-", none)
+  | some ["hang"] => ("FAIL:terminates", none)
+  | some [c] => if c.startsWith "crash:" then ("FAIL:no_crash", none) else ("FAIL:parse", none)
+  | some _ =>
+    match splitImpl impl with
+    | some (res, stt) =>
+      match parseDWI stt with
+      | some (wi, ios) =>
+        let resS := " ".intercalate res
+        let v :=
+          match checkD wi.toD with
+          | some c => "FAIL:" ++ c
+          | none =>
+            match (List.range ios.length).findSome? (fun k => ((ios[k]?).join).bind (IObs.foreign k)) with
+            | some c => "FAIL:copy_independent:" ++ c
+            | none =>
+            match (List.range wi.w.obs.length).findSome? (fun k => (wi.w.getObs k).bind (fun o => o.check wi.w.g)) with
+            | some c => "FAIL:keeps_object:obs:" ++ c
+            | none =>
+              if isValidQuery && resS != showR showBool (D.isDA wi.w.g) then "FAIL:valid_answer"
+              else if isValidQuery && (resS == "1" || resS == "0") && wi.w.g.directed && resS != showBool (isAcyclicRef wi.w.g) then "FAIL:valid_iff"
+              else match extra res wi with
+                | some c => "FAIL:" ++ c
+                | none => "ok"
+        (v, some wi)
+      | none => ("FAIL:parse", none)
+    | none => ("FAIL:parse", none)
+
+def finishDW (st : St) (res : String) (dw' : DW) (jv : String × Option DW) : St × String × String :=
+  let prev := match jv.2 with | some wi => some wi | none => st.prevDW
+  ({ st with dw := dw', prevDW := prev }, res ++ " ; " ++ showDW dw', jv.1)
+
+def stepDW (st : St) (op : List String) (impl : Option (List String)) : St × String × String :=
+  let nat (s : String) : Nat := s.toNat?.getD 0
+  let dw := st.dw
+  let k := st.osel
+  let none2 : List String → DW → Option String := fun _ _ => none
+  let mutr (r : TW.WRes × DW) (extra : List String → DW → Option String) := finishDW st (showW r.1) r.2 (judgeDW impl false extra)
+  -- after a successful call with an edge object `x`: the object is the one of the relation father -> son
+  let keeps (f s : Obj) (x : Option Obj) : List String → DW → Option String := fun res wi =>
+    match x, wi.w.getObs k with
+    | some x, some o =>
+      if res == ["ok"] && World.edgeLinking wi.w o f s != some (some x) then some "keeps_object" else none
+    | _, _ => none
+  let sh (r : TRes (List Obj)) : String := match r with | .ok l => showObjs l | .exc => "exc:bpp" | .fuel => "diverges" | .ub => "ub"
+  let o (x : Option String) := showOpt x
+  match op with
+  | ["w.sel", j] =>
+    if nat j < 3 && (dw.w.getObs (nat j)).isSome then
+      let r := finishDW st "ok" dw (judgeDW impl false none2)
+      ({ r.1 with osel := nat j }, r.2)
+    else finishDW st "bad-slot" dw (judgeDW impl false none2)
+  | ["w.createNode", a] => mutr (dw.createNode k (nat a)) none2
+  | ["w.link", a, b, x] => mutr (dw.link k (nat a) (nat b) (optObj x)) (keeps (nat a) (nat b) (optObj x))
+  | ["w.unlink", a, b] => mutr (dw.unlink k (nat a) (nat b)) none2
+  | ["w.deleteNode", a] => mutr (dw.deleteNode k (nat a)) none2
+  | ["w.addFather", n, f, x] => mutr (dw.addFather k (nat n) (nat f) (optObj x)) (keeps (nat f) (nat n) (optObj x))
+  | ["w.addSon", n, s, x] => mutr (dw.addSon k (nat n) (nat s) (optObj x)) (keeps (nat n) (nat s) (optObj x))
+  | ["w.removeFather", n, f] => mutr (dw.removeFather k (nat n) (nat f)) none2
+  | ["w.removeSon", n, s] => mutr (dw.removeSon k (nat n) (nat s)) none2
+  | ["w.removeFathers", n] =>
+    let r := dw.removeAll k (nat n) true
+    finishDW st (match r.1, r.2.1 with | some l, _ => "l " ++ showObjs l | none, x => showW x) r.2.2 (judgeDW impl false none2)
+  | ["w.removeSons", n] =>
+    let r := dw.removeAll k (nat n) false
+    finishDW st (match r.1, r.2.1 with | some l, _ => "l " ++ showObjs l | none, x => showW x) r.2.2 (judgeDW impl false none2)
+  | ["w.rootAt", a] =>
+    let prev := st.prevDW
+    let undirectedEdges (g : G) := g.edges.map (fun p => (p.1, min p.2.1 p.2.2, max p.2.1 p.2.2))
+    -- re-rooting changes no association, no node, no undirected edge
+    let extra : List String → DW → Option String := fun _ wi =>
+      match prev with
+      | some p =>
+        if p.w.obs != wi.w.obs then some "keeps_object"
+        else if undirectedEdges wi.w.g != undirectedEdges p.w.g || AL.keys wi.w.g.nodes != AL.keys p.w.g.nodes then some "dag_rootAt"
+        else none
+      | none => none
+    match dw.rootAt k (nat a) with
+    | .ok r => finishDW st (showW r.1) r.2 (judgeDW impl false extra)
+    | .fuel => finishDW st "diverges" dw (judgeDW impl false none2)
+    | .exc => finishDW st "exc:bpp" dw (judgeDW impl false none2)
+    | .ub => finishDW st "ub" dw (judgeDW impl false none2)
+  | ["w.valid"] =>
+    let (r, dw') := dw.isValid
+    finishDW st (showR showBool r) dw' (judgeDW impl true none2)
+  | ["w.rooted"] =>
+    let (r, dw') := dw.isRooted
+    let spec : List String → DW → Option String := fun res wi =>
+      if res != [showBool (decide (D.nbFatherless wi.w.g ≤ 1))] then some "rooted_answer" else none
+    finishDW st (showBool r) dw' (judgeDW impl false spec)
+  | ["w.qn", a] =>
+    let res := match dw.w.getObs k with
+      | some ob =>
+        s!"hf {o (((AL.find (nat a) ob.Ng).bind (T.hasFather dw.w.g)).map showBool)} fa {o ((dw.fathersObj ob (nat a)).map showObjs)} " ++
+        s!"nf {o ((dw.nbFathersObj ob (nat a)).map toString)} sons {o ((dw.sonsObj ob (nat a)).map showObjs)} ns {o ((dw.nbSonsObj ob (nat a)).map toString)}"
+      | none => "ub"
+    finishDW st res dw (judgeDW impl false none2)
+  | ["w.qe", x] =>
+    let res := match dw.w.getObs k with
+      | some ob => s!"son {o ((dw.sonOfEdge ob (nat x)).map showOO)} fa {o ((dw.fatherOfEdge ob (nat x)).map showOO)}"
+      | none => "ub"
+    finishDW st res dw (judgeDW impl false none2)
+  | ["w.below", a] =>
+    match dw.w.getObs k with
+    | none => finishDW st "ub" dw (judgeDW impl false none2)
+    | some ob =>
+      let (bn, dw1) := dw.belowObj ob (nat a) false
+      let (be, dw2) := dw1.belowObj ob (nat a) true
+      let (v, dw3) := dw2.isValid
+      let lu := if v == .ok true then sh (dw3.leavesUnderObj ob (nat a)) else "notvalid"
+      finishDW st s!"bn {sh bn} be {sh be} lu {lu}" dw3 (judgeDW impl false none2)
+  | [c, j, i] =>
+    if c == "w.copy" || c == "w.clone" || c == "w.assign" then
+      let j := nat j
+      let i := nat i
+      let prev := st.prevDW
+      let extra : List String → DW → Option String := fun res wi =>
+        match prev with
+        | some p =>
+          if wi.w.g != p.w.g || wi.valid != p.valid || wi.rooted != p.rooted then some "copy_independent" else
+          if (List.range 3).any (fun m => m != i && wi.w.getObs m != p.w.getObs m) then some "copy_independent" else
+          if res.head? == some "ok" && j != i then
+            (match wi.w.getObs j, wi.w.getObs i with
+             | some oj, some oi => if oj.sameRelations oi && oi.sameRelations oj then none else some "copy_same_relations"
+             | _, _ => some "copy_same_relations")
+          else none
+        | none => none
+      if j ≥ 3 || i ≥ 3 || (dw.w.getObs j).isNone || (c == "w.assign" && (dw.w.getObs i).isNone) || (c != "w.assign" && (j == i || i == 0)) then
+        finishDW st "bad-slot" dw (judgeDW impl false none2)
+      else
+        let r := if c == "w.copy" then dw.copyObs j i else if c == "w.clone" then dw.cloneObs j i else dw.assignObs j i
+        let res := match r.1 with
+          | .ok => if c == "w.assign" && j == i then "ok self" else "ok shared 1"
+          | x => showW x
+        finishDW st res r.2 (judgeDW impl false extra)
+    else (st, "bad-op", "-")
+  | _ => (st, "bad-op", "-")
+
 def step (st : St) (op : List String) (impl : Option (List String)) : St × String × String :=
   match op with
   | o :: _ =>
     if o.startsWith "h." then (if st.isDag then stepDH st op impl else stepTH st op impl)
+    else if o.startsWith "w." then stepDW st op impl
     else if o.startsWith "d." then stepD st op impl
     else if o.startsWith "o." then stepW st op impl
     else stepT st op impl
